@@ -43,7 +43,7 @@ Q17 = [("owning", 30000), ("lifecycle", 10000), ("mailbox", 4000), ("timeout", 8
 
 Q07 = [("restart", 30000), ("lifecycle", 12000), ("kinds", 4000)]
 Q10 = [("timers", 30000), ("restart", 6000), ("handles", 6000), ("kinds", 6000), ("lifecycle", 4000), ("timeout", 10000), ("backpressure", 6000)]
-Q11 = [("timeout", 40000)]
+Q11 = [("timeout", 40000), ("mailbox", 8000), ("lifecycle", 8000), ("backpressure", 4000)]
 Q13 = [("stream", 30000), ("lifecycle", 10000), ("owning", 6000)]
 Q14 = [("liveness", 30000), ("lifecycle", 10000), ("handles", 6000), ("faults+faults", 200)]
 Q15 = [("kinds", 30000), ("handles", 12000), ("restart", 4000), ("lifecycle", 4000)]
@@ -101,7 +101,7 @@ PLANS = {
     "C11": plan(Q11, scale(Q11, 40),
                 "an invocation needed more virtual time than the configured timeout",
                 ["C11.R1.below_limit_completes", "C11.R2.above_limit_abandoned", "C11.R2.caller_gets_error", "C11.R3.continues_after_timeout",
-                 "C11.R3.successor_handled", "C11.R3.state_intact", "C11.R4.fail_on_timeout_terminates", "C11.R5.no_timeout_no_abandon"]),
+                 "C11.R3.successor_handled", "C11.R3.state_intact", "C11.R3.timers_intact_after_timeout", "C11.R4.fail_on_timeout_terminates", "C11.R5.no_timeout_no_abandon"]),
     "C13": plan(Q13, scale(Q13, 40),
                 "a stream-attached actor handled both stream items and messages, or was stopped/dropped while its stream was endless",
                 ["C13.R1.items_exactly_once_in_order", "C13.R1.items", "C13.R2.messages_in_order", "C13.R3.never_abandoned", "C13.R4.terminates",
